@@ -168,7 +168,7 @@ def parse_template(lines):
                 m = re.match(r'^//@closure\s+(\S+)\s+(.*?)\s+(closure)\s+(\d+)\s+as\s+(.*)$', s)
                 spec = FnSpec('block', m.group(1), parse_target(m.group(2)), (int(m.group(4)), m.group(5), m.group(3)))
             else:
-                m = re.match(r'^//@block\s+(\S+)\s+(.*?)\s+(loop|match)\s+(\d+)\s+as\s+(.*)$', s)
+                m = re.match(r'^//@block\s+(\S+)\s+(.*?)\s+(loop|match|spawn)\s+(\d+)\s+as\s+(.*)$', s)
                 spec = FnSpec('block', m.group(1), parse_target(m.group(2)), (int(m.group(4)), m.group(5), m.group(3)))
             spec.line = i + 1
             i += 1
@@ -947,6 +947,17 @@ class FnEmitter:
                 k += item.body_open
                 c += item.body_open
                 first = k if label is None else label + item.body_open
+            elif kind_ == 'spawn':
+                # body of the n-th `tokio::spawn(async move { BODY })`
+                sp_ = [z for z in range(item.body_open, item.body_close) if toks[z].kind == 'ident' and toks[z].text == 'spawn'
+                       and toks[z - 1].text == '::' and toks[z + 1].text == '(' and toks[z + 2].text == 'async']
+                if n_ > len(sp_):
+                    raise GenError('lost anchor: spawn %d for lifted block %s' % (n_, spec.qname), spec.qname)
+                z = sp_[n_ - 1] + 2
+                while toks[z].text != '{':
+                    z += 1
+                first = z + 1
+                c = match_close(toks, z) - 1
             elif kind_ == 'closure':
                 # n-th closure `|params| body` that is the (first) argument of a call: `( |..| BODY )`
                 cs_ = [z for z in range(item.body_open, item.body_close) if toks[z].text == '|' and toks[z - 1].text == '(']
